@@ -433,6 +433,14 @@ theorem f64ToInt_nan_inf_raise (d : Nat) (h : f64Exp d = 2047) :
     f64ToInt d = .error (if f64Frac d = 0 then .overflow else .valueError) := by
   unfold f64ToInt; rw [if_pos h]; split <;> rfl
 
+/-- **Spiral clamp comparisons are exact.**  `angle > 2*pi`, `angle < -2*pi`, `r < 0` are decided on the exact values:
+for finite doubles (value * 2^1075 = `f64Scaled`) and for Python ints alike; NaN compares false (and is sent as NaN). -/
+theorem spiral_comparisons_exact (d : Nat) (cv : Conv) (v : Int) (c : Nat) (hd : f64Exp d ≠ 2047) (hc : f64Exp c ≠ 2047) :
+    ((Num.f d cv).gtF64 c = true ↔ f64Scaled c < f64Scaled d) ∧ ((Num.f d cv).ltF64 c = true ↔ f64Scaled d < f64Scaled c) ∧
+    ((Num.i v cv).gtF64 c = true ↔ f64Scaled c < v * ((2 ^ 1075 : Nat) : Int)) ∧
+    ((Num.i v cv).ltF64 c = true ↔ v * ((2 ^ 1075 : Nat) : Int) < f64Scaled c) :=
+  ⟨gtF64_finite d cv c hd hc, ltF64_finite d cv c hd hc, gtF64_int v cv c hc, ltF64_int v cv c hc⟩
+
 /-- **Quaternion layout.**  When `compress_quaternion` returns `n` (for 9-bit magnitudes): `n` fits 32 bits, and the
 firmware's `quatdecompress` bit extraction yields exactly: dropped index = the component of largest magnitude,
 and for each other component its 9-bit magnitude and its sign relative to the dropped component. -/
